@@ -100,18 +100,18 @@ def newtonRatOp (j : Json) : R Json := do
   let alpha : Rat := -1 / pα
   let ra := rs.toArray
   -- per-try oracles are looked up through the ridge multiplier of the try; the model itself is unchanged
-  let body (i : Nat) : OState (Mat Rat n n) Rat :=
+  let body (i : Nat) : OState (DMat Rat n) Rat :=
     let r := ra.getD i 1
     let z := natPow r p
     let fro' := (1 + pα) / (2 * z)
     let K := matAlg n s (fun _ => fro')
-    outerBody K c p pα alpha (fun _ => r) (fun x => x) (Mat.mask s A) ridge i
+    outerBody K c p pα alpha (fun _ => r) (fun x => x) (DMat.tab (Mat.mask s A)) ridge i
   let K0 := matAlg (α := Rat) n s (fun x => x)
   let o := outerLoop body c.numTries c.numTries (outerInit K0 1000)
   -- exact residual of the returned root against the ridge of the last try
-  let Ad := damped K0 (Mat.mask s A) ridge (o.tries - 1)
-  let resid := K0.dist (Mat.mul (matPower Mat.mul Mat.one o.x p) Ad)
-  pure (obj [("x", matJson ratC o.x), ("err", ratToJson o.err), ("iters", toJson o.iters), ("ratio", ratToJson o.ratio),
+  let Ad := damped K0 (DMat.tab (Mat.mask s A)) ridge (o.tries - 1)
+  let resid := K0.dist (K0.mul (matPower K0.mul K0.one o.x p) Ad)
+  pure (obj [("x", matJson ratC o.x.fn), ("err", ratToJson o.err), ("iters", toJson o.iters), ("ratio", ratToJson o.ratio),
              ("retries", toJson o.tries), ("resid", ratToJson resid), ("honest", Json.bool (decide (resid ≤ o.err)))])
 
 def fmax (a b : Float) : Float := if a < b then b else a
@@ -139,7 +139,8 @@ def ops : List Op := [
     let n ← getNat j "n"
     let p ← getNat j "p"
     let A ← getMat ratC j "A" n n
-    pure (obj [("x", matJson ratC (matPower Mat.mul Mat.one A p))])),
+    let K := matAlg (α := Rat) n n (fun x => x)
+    pure (obj [("x", matJson ratC (matPower K.mul K.one (DMat.tab A) p).fn)])),
   ("newton", newtonOp),
   ("newton_rat", newtonRatOp),
   ("eigh_root", eighOp),
